@@ -70,6 +70,14 @@ def _cases(draw):
                 home["ch"].append({"k": "q", "c": c})
             else:
                 form["nodes"].append({"k": "q", "c": c})
+    if g.p("_", 0.1) and "entities" not in form:
+        # the entities sheet holds expressions too: its data sources need declaring like any other
+        top = [n["c"]["name"] for n in form["nodes"] if n["k"] == "q" and n["c"].get("type", "").split(" ")[0] in ("text", "integer")]
+        ref = "${%s}" % g.pick(top) if top else "'k'"
+        row = {"dataset": "trees", "label": g.pick([f"pulldata('el', 'n', 'k', {ref})", f"concat(${{last-saved#{top[0]}}}, ' again')" if top else "'x'", "'plain'"])}
+        if g.p("_", 0.5):
+            row["create_if"] = f"pulldata{g.pick(['', ' '])}('ec', 'n', 'k', {ref}) = '1'"
+        form["entities"] = [row]
     # lists whose rows are not contiguous on the sheet
     if len(g.lists) >= 2 and g.p("_", 0.25):
         form["choices_interleave"] = True
@@ -218,6 +226,10 @@ def check(out, form, v, res):
     for r in form.get("entities") or []:
         if any(isinstance(val, str) and "${last-saved#" in val for val in r.values()):
             want("__last-saved", "jr://instance/last-saved", "last-saved")
+        for col, val in r.items():
+            if col in ("label", "entity_id", "create_if", "update_if") and isinstance(val, str):
+                for m in re.finditer(r"pulldata\s*\(\s*(['\"])(.*?)\1\s*,", val):
+                    want(m.group(2), f"jr://file-csv/{m.group(2)}.csv", "pulldata")
     out.checked("C09.external-instances")
     for iid, (src, why) in ext_expected.items():
         hits = [e for e in sec_all if e.get("id") == iid]
